@@ -20,14 +20,17 @@ def main(ctx, args):
         extra = [[rng.randint(1, NT) for _ in range(3)] for _ in range(1600)]
         extra += [[rng.randint(1, NT) for _ in range(rng.randint(4, 5))] for _ in range(800)]
     else:
-        jobs = [dict(MODE="tok", LO=a, HI=b, LMAX=3) for a, b in split_range(0, count_upto(3), NCPU * 4)]
-        extra = [[rng.randint(1, NT) for _ in range(rng.randint(4, 6))] for _ in range(40000)]
+        # every sequence of <= 3 tokens on lines of <= 2 characters, every sequence of <= 2 tokens on lines of <= 3 characters
+        # (all three-token sequences on lines of <= 3 characters - 11.5 M cases - did not finish in 35 min)
+        jobs = [dict(MODE="tok", LO=a, HI=b, LMAX=2) for a, b in split_range(0, count_upto(3), NCPU * 4)]
+        jobs += [dict(MODE="tok", LO=a, HI=b, LMAX=3) for a, b in split_range(0, count_upto(2), NCPU)]
+        extra = [[rng.randint(1, NT) for _ in range(rng.randint(4, 6))] for _ in range(12000)]
     # sampled longer token sequences: each index is its own LO..LO+1 range, grouped per process
     per = max(1, len(extra) // NCPU)
     for i in range(0, len(extra), per):
         f = ctx.path("gen", "idx_%d.ndjson" % i)
         open(f, "w").write("".join(json.dumps(x) + "\n" for x in extra[i:i + per]))
-        jobs.append(dict(MODE="list", IDXFILE=f, LMAX=2 if ctx.quick else 3))
+        jobs.append(dict(MODE="list", IDXFILE=f, LMAX=2))
     # bracket expressions: negation, ] as first member, ranges, classes, - and ^ as members, alone and in context
     M = ["a", "b", "a-b", "A", "[:alpha:]", "-", "^", "\u00e9", "[:digit:]"]
     brk = []
@@ -55,7 +58,7 @@ def main(ctx, args):
     for i in range(0, len(brk), per):
         f = ctx.path("gen", "brk_%d.ndjson" % i)
         open(f, "w").write("".join(json.dumps([ord(c) for c in x]) + "\n" for x in brk[i:i + per]))
-        jobs.append(dict(MODE="cplines", IDXFILE=f, LMAX=2 if ctx.quick else 3))
+        jobs.append(dict(MODE="cplines", IDXFILE=f, LMAX=2))
     tables = gen_tables(ctx, jobs)
     exe = ctx.probe("reprobe")
     stats = dict(patterns=0, clean=0, cases=0, matched=0, cut=0, exact=0, eloop=0, thm=0)
